@@ -66,6 +66,9 @@ def strategy_(g):
     elif tr == "scale-info":
         p["c"] = 10.0 ** rnd.uniform(-3, 3)
     case["trp"] = p
+    # for the two permutations the second representation may be built from the SAME edge objects (a re-ordered list of them) and
+    # fresh Vertex objects, after the first representation has already been optimised
+    case["reuse_edge_objects"] = tr in ("perm-vertices", "perm-edges") and g.choice([False, True])
     case["k"] = g.integer(1, 6)
     return case
 
@@ -257,6 +260,14 @@ def check(case, ctx):
         ctx.event("landmark-to-landmark-edges:first-two-iterations-only")
         k = min(k, 2)
     ra, _ = GC.optimize_quiet(g1, tol=0.0, max_iter=k, fix_first_pose=ffp, verbose=False)
+    if case.get("reuse_edge_objects"):
+        ctx.event("second-representation-reuses-the-edge-objects")
+        fresh = GG.build(c2)
+        order = case["trp"]["perm"] if tr == "perm-edges" else list(range(len(g1._edges)))
+        g2 = gs.Graph([g1._edges[i] for i in order], fresh._vertices)
+        x2b = float(g2.calc_chi2()) / scale
+        if not (abs(x1 - x2b) <= tol_sum):
+            return ctx.fail("chi2-representation-dependent:" + tr, "chi2 %r (first representation, before optimisation) vs %r (re-ordered lists of the same edge objects over fresh vertices), tol %.3e" % (x1, x2b, tol_sum))
     rb, _ = GC.optimize_quiet(g2, tol=0.0, max_iter=k, fix_first_pose=ffp, verbose=False)
     if not GC.all_finite(g1):
         ctx.event("discarded:nonfinite-base-run")
